@@ -49,7 +49,7 @@ def large_exchanges(ctx):
         rep["evaluations"], rep["violation_count"]))
     for v in rep["violations"][:3]:
         ctx.violations.append(dict(engine="h-ec large-exchange", **v))
-    return {"modified_documents_per_exchange": sorted(set(modified)), "exchanges_with_one_fault": rep.get("faulty_exchanges"), "exchanges_with_a_write_slower_than_the_progress_watcher": rep.get("slow_exchanges"),
+    return {"keyspaces_repaired_in_one_round": rep.get("keyspaces_repaired_in_one_round"), "modified_documents_per_exchange": sorted(set(modified)), "exchanges_with_one_fault": rep.get("faulty_exchanges"), "exchanges_with_a_write_slower_than_the_progress_watcher": rep.get("slow_exchanges"),
             "of_which_given_up_by_the_watcher_before_the_write_ended": rep.get("slow_exchanges_given_up_by_the_watcher"), "exchanges": rep["evaluations"], "entries": rep["entries"], "sizes": rep["sizes"], "removal_only_sizes": rep.get("removal_sizes"), "exchanges_that_leave_a_difference": rep["violation_count"]}
 
 
